@@ -42,7 +42,9 @@ def run(ctx):
     RR.hit_from_record(ctx, "R14.j")
     from . import C20 as _RC20
     _RC20.api_effects(ctx, "R14.k", which=("add",))
-    return info("R14.k: add_record really adds the record to the addressed store on every call (the registry API is not exercised by the repository's tests). R14.j: Word::dist is start(later) - end(earlier) in both orders (region-wise), the stem is computed from the word's own characters, a hit carries the whole title. "
+    RR.filter_passes(ctx, "R14.l", "split-spelling-passes", 1, 2, 2, "a hit whose one title word is matched by the two words of a two-word query", "'to y' no longer finds 'toy'")
+    RR.filter_passes(ctx, "R14.l", "joined-spelling-passes", 2, 1, 1, "a hit whose two title words are matched by a one-word query", "'wifi' no longer finds 'wi-fi'")
+    return info("R14.l: hits made by a split or a joined spelling pass hit_matches whatever the matches look like (abstract run). R14.k: add_record really adds the record to the addressed store on every call (the registry API is not exercised by the repository's tests). R14.j: Word::dist is start(later) - end(earlier) in both orders (region-wise), the stem is computed from the word's own characters, a hit carries the whole title. "
                 "Necessary constants for split/joined spellings at the L=3 worst case: length gate accepts 1-3/4, "
                 "cost(NotAlpha)/4 passes the DL gate, Jaccard gate accepts 1/2, and characters without a language "
                 "class that are not alphabetic get the NotAlpha class (so the separator is charged the NotAlpha cost); R14.e: join attempts are skipped only when the other word is strictly shorter than first word + gap; R14.f/g: linear forms of the split halves and of the joined word equal the derived formulas.")
